@@ -59,6 +59,15 @@ pub fn check(deep: bool, st: &mut TStats, fails: &mut Vec<Failure>) {
             if let Ok(f) = fol::Formula::from_str(&f) { srcs.push(rename(&f)); }
         }
     }
+    // systematic: every relation between a placeholder of each sort (n integer, c symbol, d general) and numerals, symbols, variables of each
+    // sort, arithmetic, and the other placeholders
+    for r in ["=", "!=", "<", "<=", ">", ">="] {
+        for f in [format!("p(0) or d {r} 1"), format!("p(0) or 1 {r} d"), format!("p(0) or d {r} a"), format!("p(0) or n {r} 1"), format!("p(0) or n + 1 {r} d"), format!("p(0) or d {r} n"), format!("p(0) or c {r} a"), format!("p(0) or c {r} d"), format!("p(0) or d {r} c"),
+                  format!("p(0) or n {r} c"), format!("p(0) or d {r} #inf"), format!("p(0) or d {r} d"), format!("forall N$i (q(N$i) -> N$i {r} d)"), format!("forall N$i (q(N$i) -> d {r} N$i * 1)"), format!("forall X (q(X) -> X {r} d)"), format!("forall X (q(X) -> n {r} X)"),
+                  format!("exists S$s (p(S$s) and S$s {r} c)"), format!("exists S$s (p(S$s) and d {r} S$s)"), format!("exists N$i (q(N$i) and N$i {r} n - 1)"), format!("not 0 {r} d {r} 1 or p(d)"), format!("q(d, n) or not (d {r} 1 and n {r} 1)")] {
+            if let Ok(f) = fol::Formula::from_str(&f) { srcs.push(rename(&f)); }
+        }
+    }
     // systematic: ground integer terms of depth <= 2 over a few numerals (negative ones included) with unary minus, +, -, *:
     // the rendering must denote the same integer (compared with the value and with the value plus one)
     {
